@@ -85,18 +85,30 @@ impl<T: Term> Term for IsoTerm<T> {
     // beyond the benefit of a hypothetical custom impl of these methods in T.
 }
 
+/// Compare two terms, considering all blank nodes as equal,
+/// wherever they occur (including inside quoted triples).
+fn iso_cmp<T1: Term, T2: Term>(t1: T1, t2: T2) -> Ordering {
+    use TermKind::{BlankNode, Triple};
+    match (t1.kind(), t2.kind()) {
+        (BlankNode, BlankNode) => Ordering::Equal,
+        (Triple, Triple) => {
+            let [s1, p1, o1] = t1.triple().unwrap();
+            let [s2, p2, o2] = t2.triple().unwrap();
+            iso_cmp(s1, s2)
+                .then_with(|| iso_cmp(p1, p2))
+                .then_with(|| iso_cmp(o1, o2))
+        }
+        _ => Term::cmp(&t1, t2),
+    }
+}
+
 impl<T1, T2> PartialEq<IsoTerm<T1>> for IsoTerm<T2>
 where
     T1: Term,
     T2: Term,
 {
     fn eq(&self, other: &IsoTerm<T1>) -> bool {
-        use TermKind::BlankNode;
-        if self.kind() == BlankNode && other.kind() == BlankNode {
-            true
-        } else {
-            Term::eq(&self.0, other.0.borrow_term())
-        }
+        iso_cmp(self.0.borrow_term(), other.0.borrow_term()) == Ordering::Equal
     }
 }
 
@@ -108,23 +120,13 @@ where
     T2: Term,
 {
     fn partial_cmp(&self, other: &IsoTerm<T1>) -> Option<Ordering> {
-        use TermKind::BlankNode;
-        if self.kind() == BlankNode && other.kind() == BlankNode {
-            Some(Ordering::Equal)
-        } else {
-            Some(Term::cmp(&self.0, other.0.borrow_term()))
-        }
+        Some(iso_cmp(self.0.borrow_term(), other.0.borrow_term()))
     }
 }
 
 impl<T: Term> Ord for IsoTerm<T> {
     fn cmp(&self, other: &Self) -> Ordering {
-        use TermKind::BlankNode;
-        if self.kind() == BlankNode && other.kind() == BlankNode {
-            Ordering::Equal
-        } else {
-            Term::cmp(&self.0, other.0.borrow_term())
-        }
+        iso_cmp(self.0.borrow_term(), other.0.borrow_term())
     }
 }
 
